@@ -508,6 +508,7 @@ func trimCollinearPass(path Path64, isOpen bool) Path64 {
 }
 
 func TrimCollinearD(path PathD, precision int, isOpen bool) PathD {
+	checkPrecision(precision)
 	scale := math.Pow(10, float64(precision))
 	scaledPath := ScalePathDToPath64(path, scale)
 	trimmedPath := TrimCollinear64(scaledPath, isOpen)
